@@ -12,6 +12,7 @@ import (
 	"sort"
 	"strconv"
 	"strings"
+	"sync"
 	"time"
 
 	"github.com/bytom/bytom/accesstoken"
@@ -553,6 +554,236 @@ func runC36(c *Ctx) {
 		}
 		emit(out, fails)
 	}
+	rounds := 300
+	if c.Tier == "thorough" {
+		rounds = 3000
+	}
+	c36concurrent(c, rounds)
+}
+
+// ---- concurrent share (direct oracle only) -------------------------------------------------
+//
+// Several requests in flight on ONE authn.API: genuine ones that have to go to the store
+// (cold cache or expired entry) and never-issued credential pairs whose id and secret have the
+// lengths of a genuine pair. The store's DB is wrapped: a lookup of a gated id announces itself
+// and waits, so that other requests are served while it is between the cache read and the
+// cache write of cachedTokenAuthnCheck (what a slow disk read does to two HTTP requests).
+// Epilogue, sequential: every never-issued pair must still be refused. Every call of the
+// implementation runs under a watchdog.
+
+type c36gatedDB struct {
+	dbm.DB
+	mu      sync.Mutex
+	gated   map[string]bool
+	entered chan string
+	release chan struct{}
+	slow    bool
+}
+
+func (g *c36gatedDB) Get(key []byte) []byte {
+	v := g.DB.Get(key)
+	g.mu.Lock()
+	gate, slow := g.gated[string(key)], g.slow
+	g.mu.Unlock()
+	if gate {
+		g.entered <- string(key)
+		<-g.release
+	} else if slow {
+		time.Sleep(20 * time.Microsecond)
+	}
+	return v
+}
+
+func c36remote(user, pw string) *http.Request {
+	req := &http.Request{Method: "POST", URL: &url.URL{Path: "/list-balances"}, Header: http.Header{}, RemoteAddr: "203.0.113.7:40000"}
+	req.SetBasicAuth(user, pw)
+	return req
+}
+
+// authOK runs Authenticate under a watchdog; ok=false when it did not return.
+func c36auth(api *authn.API, user, pw string) (admitted, returned bool) {
+	done := make(chan bool, 1)
+	go func() { _, err := api.Authenticate(c36remote(user, pw)); done <- err == nil }()
+	select {
+	case a := <-done:
+		return a, true
+	case <-time.After(5 * time.Second):
+		return false, false
+	}
+}
+
+func c36concurrent(c *Ctx, rounds int) {
+	const idChars = "abcdefghijklmnopqrstuvwxyz"
+	randID := func(n int) string {
+		b := make([]byte, n)
+		for i := range b {
+			b[i] = idChars[c.Rng.Intn(len(idChars))]
+		}
+		return string(b)
+	}
+	failures := 0
+	for r := 0; r < rounds && failures < 5; r++ { // a handful of concrete schedules is enough
+		gdb := &c36gatedDB{DB: dbm.NewMemDB(), gated: map[string]bool{}, entered: make(chan string, 64), release: make(chan struct{})}
+		store := accesstoken.NewStore(gdb)
+		api := authn.NewAPI(store, false)
+		nTok := 1 + c.Rng.Intn(3)
+		type pair struct{ user, pw string }
+		var genuine, bogus []pair
+		used := map[string]bool{}
+		for i := 0; i < nTok; i++ {
+			id := randID(3 + c.Rng.Intn(4))
+			if used[id] {
+				continue
+			}
+			used[id] = true
+			tok, err := store.Create(id, "client")
+			if err != nil {
+				panic(err)
+			}
+			secret := strings.SplitN(tok.Token, ":", 2)[1]
+			genuine = append(genuine, pair{id, secret})
+			// never issued, same lengths: another id, a secret of 64 hex characters
+			for k := 0; k < 1+c.Rng.Intn(2); k++ {
+				bid := randID(len(id))
+				for used[bid] {
+					bid = randID(len(id))
+				}
+				used[bid] = true
+				bs := make([]byte, 32)
+				c.Rng.Read(bs)
+				bogus = append(bogus, pair{bid, hex.EncodeToString(bs)})
+			}
+		}
+		tag := fmt.Sprintf("concurrent round %d (%d tokens, %d never-issued pairs)", r, len(genuine), len(bogus))
+		hang := func(what string) {
+			c.Fail("call-does-not-return:Authenticate", tag+": "+what)
+		}
+		// sanity on the quiet server
+		quietBad := false
+		for _, b := range bogus {
+			if a, ret := c36auth(api, b.user, b.pw); !ret {
+				hang("quiet server")
+				return
+			} else if a {
+				c.Fail("authn:never-issued-pair-admitted", fmt.Sprintf("%s: (%q,%q) admitted on a quiet server", tag, b.user, b.pw))
+				quietBad = true
+			}
+		}
+		if quietBad {
+			continue
+		}
+		var steps []string
+		if r%2 == 0 {
+			// gated: each genuine request is held inside its store lookup while never-issued pairs are served
+			for _, g := range genuine {
+				if c.Rng.Intn(3) == 0 {
+					api.VerifAgeCache(301 * time.Second) // an expired entry instead of a cold cache (second and later tokens)
+				}
+				gdb.mu.Lock()
+				gdb.gated[g.user] = true
+				gdb.mu.Unlock()
+				done := make(chan bool, 1)
+				go func(g pair) { _, err := api.Authenticate(c36remote(g.user, g.pw)); done <- err == nil }(g)
+				select {
+				case <-gdb.entered:
+				case <-time.After(5 * time.Second):
+					hang("genuine request never reached the store")
+					return
+				}
+				steps = append(steps, fmt.Sprintf("genuine (%s,…) enters the store lookup", g.user))
+				for _, b := range bogus {
+					if c.Rng.Intn(2) == 0 {
+						continue
+					}
+					a, ret := c36auth(api, b.user, b.pw)
+					if !ret {
+						hang("never-issued pair while a genuine lookup is in flight")
+						return
+					}
+					steps = append(steps, fmt.Sprintf("never-issued (%s,…) refused=%v", b.user, !a))
+					if a {
+						c.Fail("authn:never-issued-pair-admitted", fmt.Sprintf("%s: (%q,%q) admitted while a genuine lookup was in flight", tag, b.user, b.pw))
+					}
+				}
+				gdb.mu.Lock()
+				delete(gdb.gated, g.user)
+				gdb.mu.Unlock()
+				gdb.release <- struct{}{}
+				select {
+				case ok := <-done:
+					steps = append(steps, fmt.Sprintf("genuine (%s,…) lookup completes, admitted=%v", g.user, ok))
+					if !ok {
+						c.Fail("authn:live-token-refused", tag+": genuine request refused")
+					}
+				case <-time.After(5 * time.Second):
+					hang("genuine request after release")
+					return
+				}
+			}
+			c.Count("concurrent/gated-rounds")
+		} else {
+			// free running: everybody at once against a slow store, several passes
+			gdb.mu.Lock()
+			gdb.slow = true
+			gdb.mu.Unlock()
+			var wg sync.WaitGroup
+			start := make(chan struct{})
+			for pass := 0; pass < 3; pass++ {
+				for _, p := range append(append([]pair(nil), genuine...), bogus...) {
+					wg.Add(1)
+					go func(p pair) {
+						defer wg.Done()
+						<-start
+						for k := 0; k < 4; k++ {
+							api.Authenticate(c36remote(p.user, p.pw))
+						}
+					}(p)
+				}
+			}
+			close(start)
+			fin := make(chan struct{})
+			go func() { wg.Wait(); close(fin) }()
+			select {
+			case <-fin:
+			case <-time.After(20 * time.Second):
+				hang("free-running requests")
+				return
+			}
+			steps = append(steps, "all pairs requested concurrently (3 x 4 times each) against a slow store")
+			c.Count("concurrent/free-rounds")
+		}
+		// epilogue: every never-issued pair must still be refused, every genuine one admitted
+		for _, b := range bogus {
+			a, ret := c36auth(api, b.user, b.pw)
+			if !ret {
+				hang("epilogue")
+				return
+			}
+			if a {
+				c.Count("oracle/never-issued-admitted")
+				failures++
+				c.Fail("authn:never-issued-pair-admitted", fmt.Sprintf("%s: the never-issued pair (%q,%q) is admitted from a non-loopback origin after: %s. Cache now: %v", tag, b.user, b.pw, strings.Join(steps, "; "), c36cacheKeys(api)))
+				break
+			}
+		}
+		for _, g := range genuine {
+			if a, ret := c36auth(api, g.user, g.pw); ret && !a {
+				c.Fail("authn:live-token-refused", tag+": genuine pair refused in the epilogue")
+			}
+		}
+	}
+}
+
+func c36cacheKeys(api *authn.API) []string {
+	var ks []string
+	for _, e := range api.VerifCache() {
+		k := e.Key
+		if len(k) > 14 {
+			k = k[:14] + "…"
+		}
+		ks = append(ks, k)
+	}
+	return ks
 }
 
 func init() { register("c36", runC36) }
